@@ -762,7 +762,7 @@ pub fn run_c16(ctx: &mut Ctx) {
         let mut done = false;
         // any function of the program (impl block or vftable block); the bad attribute is the
         // only one, or sits before / after a valid one
-        let shape = rng.below(3);
+        let shape = rng.below(8);
         let mut fns: Vec<&mut Function> = vec![];
         for (_, m) in mods.iter_mut() {
             for blk in m.impls.iter_mut() {
@@ -788,10 +788,17 @@ pub fn run_c16(ctx: &mut Ctx) {
                     f.attributes.0.insert(0, Attribute::calling_convention(bad_name));
                     f.attributes.0.push(Attribute::calling_convention("cdecl"));
                 }
-                _ => {
+                2 => {
                     f.attributes.0.insert(0, Attribute::calling_convention("stdcall"));
                     f.attributes.0.push(Attribute::calling_convention(bad_name));
                 }
+                // the attribute in a shape that names no convention (or names one the wrong way):
+                // an identifier instead of a string, a number, two arguments, none, `= "..."`
+                3 => f.attributes.0.push(Attribute::Function("calling_convention".into(), vec![Expr::Ident(Ident((*rng.pick(&["cdecl", "bogus", "stdcall"])).to_string()))])),
+                4 => f.attributes.0.push(Attribute::Function("calling_convention".into(), vec![Expr::IntLiteral(5)])),
+                5 => f.attributes.0.push(Attribute::Function("calling_convention".into(), vec![Expr::StringLiteral("cdecl".into()), Expr::StringLiteral("stdcall".into())])),
+                6 => f.attributes.0.push(Attribute::Function("calling_convention".into(), vec![])),
+                _ => f.attributes.0.push(Attribute::Assign("calling_convention".into(), Expr::StringLiteral((*rng.pick(&["cdecl", "bogus"])).to_string()))),
             }
             done = true;
         }
@@ -1192,13 +1199,16 @@ pub fn run_c14(ctx: &mut Ctx) {
     // whatever the spelling (child processes: the working directory is per process)
     {
         let exe = std::env::current_exe().unwrap();
-        let spellings: &[(&str, &str)] = &[("types", "types"), ("./types", "types"), ("types/", "types"), ("nest/types", "nest/types"), ("./nest/./types", "nest/types"), ("nest//types", "nest/types")];
+        let spellings: &[(&str, &str)] = &[("types", "types"), ("./types", "types"), ("types/", "types"), ("nest/types", "nest/types"), ("./nest/./types", "nest/types"), ("nest//types", "nest/types"), ("ty[p]es", "ty[p]es"), ("star*dir", "star*dir"), ("q?", "q?"), ("{a,b}", "{a,b}")];
         let tree: Vec<(&str, &str)> = vec![
             ("top.pyxis", "pub type Top { pub a: u32, }"),
             ("x.pyxis", "pub type X0 { pub a: u32, }"),
             ("types/x.pyxis", "pub type X1 { pub a: u32, }"),
             ("types/types/x.pyxis", "pub type X2 { pub a: u32, }"),
             ("nest/types/deep.pyxis", "pub type Deep { pub a: u32, }"),
+            ("dot.pyxis", "pub type Dot { pub a: u32, }"),
+            ("dot.x.pyxis", "pub type DotX { pub a: u64, }"),
+            ("dot.rs.pyxis", "pub type DotRs { pub a: u16, }"),
         ];
         let mut want: Vec<String> = tree.iter().map(|(rel, _)| format!("{}.rs", rel.trim_end_matches(".pyxis"))).collect();
         want.sort();
@@ -1260,6 +1270,41 @@ pub fn run_c14(ctx: &mut Ctx) {
         if ctx.counter("collision_samples") < 1 {
             ctx.count("collision_samples", 1);
             ctx.sample(json!({"collision_kind": kind, "case": case_json(&mods, ptrw)}));
+        }
+    }
+    // the same module path handed to add_module twice: the second must not replace the first
+    for (k, (a, b)) in [
+        ("pub type A { pub x: u32, }", "pub type B { pub y: u32, }"),
+        ("pub type A { pub x: u32, }", "pub type A { pub x: u32, }"),
+        ("pub type A { pub x: u32, }\nimpl A { #[address(0x1000)] pub fn f(&self); }", "#[address(0x7000)] pub extern g: u32;"),
+    ]
+    .iter()
+    .enumerate()
+    {
+        ctx.eval();
+        let parse = |t: &str| pyxis::parser::parse_str(t).expect("C14 twice-added module parses");
+        let mods = vec![(ItemPath::from("kt_same"), parse(a)), (ItemPath::from("kt_same"), parse(b))];
+        ctx.nontrivial(crate::rng::fnv(format!("twice{k}").as_bytes()));
+        let out = drive::build_modules(&mods, 8, Opts::default());
+        match &out.result {
+            Ok(ok) => {
+                // accepted: then everything both modules declare must be in the one file
+                let text = ok.files.get("kt_same.rs").cloned().unwrap_or_default();
+                let mut missing = vec![];
+                for needle in ["struct A", if *b == "pub type B { pub y: u32, }" { "struct B" } else { "struct A" }] {
+                    if !text.contains(needle) {
+                        missing.push(needle);
+                    }
+                }
+                if k == 2 && !(text.contains("fn f") && text.contains("get_g")) {
+                    missing.push("fn f / get_g");
+                }
+                if !missing.is_empty() {
+                    ctx.violation("C14/module-added-twice-replaced", &format!("add_module was called twice for one path and accepted; the file lacks {missing:?}"), case_json(&mods, 8));
+                }
+            }
+            Err(e) if e.stage == Stage::Panic => ctx.violation("C14/panic", &e.msg, case_json(&mods, 8)),
+            Err(_) => ctx.count("module_added_twice_rejected", 1),
         }
     }
     if ctx.distinct_count() < ctx.tier.pick(40, 400) {
